@@ -162,10 +162,14 @@ class Alphabet:
         if cs not in self._cache:
             out = []
             for i, a in enumerate(self.atoms):
-                inside = cs_contains(cs, a[0][0])
-                # consistency: the atom must be entirely in or out
-                if inside:
+                inter = cs_inter(cs, a)
+                if inter == a:
                     out.append(i)
+                elif inter:
+                    # the alphabet does not refine this character set: a
+                    # language built over it would be wrong
+                    raise AnalysisError(
+                        "alphabet does not refine character set %r" % (cs,))
             self._cache[cs] = frozenset(out)
         return self._cache[cs]
 
